@@ -48,6 +48,8 @@ class Sym:
     POLICY = None   # callable(kind, lhs, rhs) -> bool for ==, !=, <, ... on symbolic values (E4 runs)
     SQRT_HOOK = None   # callable(Sym) -> Sym for x ** 0.5 (harness supplies an atom q with q*q == x, q > 0)
     SNAPS = {}      # float -> 'p/q': binary doubles of the executed Python code (e.g. 1/3.) read as the rational they round
+    ALIAS = {}      # equality locus under exploration: {symbol name: other symbol name | 'p/q'} (see kprop.explore_loci)
+    EQ_EVENTS = []  # ==/!= between symbolic values met by the executed code: (lhs, rhs, where) with lhs/rhs ('var', name) | ('num', 'p/q') | None
 
     def __init__(self, n, d=None):
         self.n = n
@@ -57,6 +59,26 @@ class Sym:
     @staticmethod
     def var(name):
         return Sym(z3.Real(name))
+
+    @staticmethod
+    def resolve(name):
+        """name of the symbol standing for `name` on the equality locus under exploration, or the Fraction it is pinned to"""
+        seen = 0
+        while name in Sym.ALIAS and seen < 8:
+            to = Sym.ALIAS[name]
+            seen += 1
+            try:
+                return Fraction(to)
+            except (ValueError, ZeroDivisionError):
+                name = to
+        return name
+
+    def describe(self):
+        if self.is_numeric():
+            return ('num', str(self.n))
+        if not self.d and z3.is_const(self.n) and self.n.decl().kind() == z3.Z3_OP_UNINTERPRETED:
+            return ('var', self.n.decl().name())
+        return None
 
     @staticmethod
     def lift(x):
@@ -296,6 +318,12 @@ class Sym:
             return {'eq': a == b, 'ne': a != b, 'lt': a < b, 'le': a <= b, 'gt': a > b, 'ge': a >= b}[kind]
         if kind in ('eq', 'ne') and self.same(o):
             return kind == 'eq'
+        if kind in ('eq', 'ne'):
+            ev = (self.describe(), o.describe())
+            if not any(e[0] == ev[0] and e[1] == ev[1] for e in Sym.EQ_EVENTS) and len(Sym.EQ_EVENTS) < 200:
+                import traceback
+                fr = [f for f in traceback.extract_stack(limit=12) if '/compmech/' in f.filename]
+                Sym.EQ_EVENTS.append((ev[0], ev[1], ('%s:%d' % (fr[-1].filename.split('/compmech/', 1)[-1], fr[-1].lineno)) if fr else '?'))
         if Sym.POLICY is not None:
             return Sym.POLICY(kind, self, o)
         raise SymBranch('%s on symbolic values' % kind)
@@ -437,3 +465,4 @@ def fresh(prefix, _c=[0]):
 def reset():
     Sym.ATOMS.clear()
     Sym.DENOMS.clear()
+    del Sym.EQ_EVENTS[:]
